@@ -237,10 +237,9 @@ Proof.
 Qed.
 
 (* ------------------------------------------------------------------ descriptor wrappers *)
-(* wsh(pk_k(K)): the summary the implementation computes for this script *)
 Definition key_c1 : keyinfo := mkKey 1 false false 0.
 Definition key_c2 : keyinfo := mkKey 2 false false 0.
-Definition key_x1 : keyinfo := mkKey 3 false true 0.
+(* pk_k(K): a fragment of base type K (used as a Tr::new leaf) *)
 Definition x_pk_k : expr :=
   mkExpr true [] [] [] true
     (mkSum BK true true 0 false [mkNode KPkK [key_c1] 34] 34 (Some (mkSat 1 0 0))).
@@ -250,32 +249,40 @@ Definition x_or_i : expr :=
     (mkSum BB true true 2 false
        [mkNode KOrI [] 73; mkNode KCheck [] 35; mkNode KPkK [key_c1] 34;
         mkNode KCheck [] 35; mkNode KPkK [key_c2] 34] 73 (Some (mkSat 2 4 1))).
-(* wsh(pkh(X)) with an x-only key X *)
-Definition x_pkh_xonly : expr :=
-  mkExpr true [] [] [] true
-    (mkSum BB true true 1 false [mkNode KCheck [] 25; mkNode KPkH [key_x1] 24] 25
-       (Some (mkSat 2 4 2))).
+(* sh(and_b(pk(A),adv:older(10))) *)
+Definition x_dupif : expr :=
+  mkExpr true [] [] [10] true
+    (mkSum BB true true 4 false
+       [mkNode KOther [] 44; mkNode KCheck [] 35; mkNode KPkK [key_c1] 34; mkNode KOther [] 8;
+        mkNode KDupIf [] 6; mkNode KOther [] 3; mkNode KOther [] 2] 44 (Some (mkSat 2 9 2))).
 (* a wsh script whose worst satisfaction executes 202 opcodes *)
 Definition x_ops_202 : expr :=
   mkExpr true [] [] [] true
     (mkSum BB true true 1 false [mkNode KCheck [] 35; mkNode KPkK [key_c1] 34] 35
        (Some (mkSat 1 202 1))).
 
+(* the classes that remain on /repo 757bc686: or_i and d: inside sh(), more than 201 executed
+   opcodes in wsh()/sh(), and Tr::new, which looks at nothing in the leaf *)
 Theorem accepted_ok_wrappers_refuted :
-  wrapper_from_tree CSegwitv0 x_pk_k = EOk /\ ~ obeys CSegwitv0 (x_sum x_pk_k) /\
-  wrapper_new CSegwitv0 (x_sum x_pk_k) = EOk /\
-  wrapper_from_tree CLegacy x_pk_k = EOk /\ ~ obeys CLegacy (x_sum x_pk_k).
+  (wrapper_from_tree CLegacy x_or_i = EOk /\ wrapper_new CLegacy (x_sum x_or_i) = EOk /\
+   ~ obeys CLegacy (x_sum x_or_i)) /\
+  (wrapper_from_tree CLegacy x_dupif = EOk /\ ~ obeys CLegacy (x_sum x_dupif)) /\
+  (wrapper_from_tree CSegwitv0 x_ops_202 = EOk /\ wrapper_new CSegwitv0 (x_sum x_ops_202) = EOk /\
+   ~ obeys CSegwitv0 (x_sum x_ops_202)) /\
+  (tr_new_leaf (x_sum x_pk_k) = EOk /\ ~ obeys CTap (x_sum x_pk_k)).
 Proof.
-  repeat split; try (vm_compute; reflexivity); intros [B _ _ _ _ _ _]; discriminate.
+  repeat split; try (vm_compute; reflexivity).
+  - intros [_ K _ _ _ _ _]. apply (K (mkNode KOrI [] 73)). simpl; auto.
+  - intros [_ K _ _ _ _ _]. apply (K (mkNode KDupIf [] 6)). simpl; auto 10.
+  - intros [_ _ _ _ _ O _]. vm_compute in O. apply O; reflexivity.
+  - intros [B _ _ _ _ _ _]. discriminate.
 Qed.
 
 Theorem desc_implies_ms_refuted :
-  (descriptor_from_str_inner CSegwitv0 x_pk_k = EOk /\
-   ms_from_str_with CSegwitv0 (ctx_consensus CSegwitv0) x_pk_k = EErr (EpValidation (ENonBase BK))) /\
   (descriptor_from_str_inner CLegacy x_or_i = EOk /\
    ms_from_str_with CLegacy (ctx_consensus CLegacy) x_or_i = EErr (EpValidation EIllegalOrI)) /\
-  (descriptor_from_str_inner CSegwitv0 x_pkh_xonly = EOk /\
-   ms_from_str_with CSegwitv0 (ctx_consensus CSegwitv0) x_pkh_xonly = EErr (EpValidation EKeyXOnly)) /\
+  (descriptor_from_str_inner CLegacy x_dupif = EOk /\
+   ms_from_str_with CLegacy (ctx_consensus CLegacy) x_dupif = EErr (EpValidation EIllegalDupIf)) /\
   (descriptor_from_str_inner CSegwitv0 x_ops_202 = EOk /\
    ms_from_str_with CSegwitv0 (ctx_consensus CSegwitv0) x_ops_202 = EErr (EpValidation EMaxOpCount)).
 Proof. repeat split; vm_compute; reflexivity. Qed.
@@ -295,22 +302,48 @@ Definition bare_shape (s : summary) : Prop :=
   | [] => False
   end.
 
-Lemma top_level_type_check_ok s :
-  top_level_type_check s = TOk <-> ~ multipath_mismatch (all_keys (s_nodes s)).
+Lemma top_level_multipath_check_ok s :
+  top_level_multipath_check s = TOk <-> ~ multipath_mismatch (all_keys (s_nodes s)).
 Proof.
-  rewrite <- top_level_type_check_iff. unfold top_level_type_check.
+  rewrite <- top_level_multipath_check_iff. unfold top_level_multipath_check.
   destruct (fold_left mp_step (all_keys (s_nodes s)) MpSingle); split; congruence.
 Qed.
 
+Theorem top_level_type_check_ok s :
+  top_level_type_check s = TOk <-> s_base s = BB /\ ~ multipath_mismatch (all_keys (s_nodes s)).
+Proof.
+  unfold top_level_type_check. rewrite <- top_level_multipath_check_ok, <- is_B_true.
+  destruct (is_B (s_base s)); simpl; split; try tauto; try discriminate.
+  intros [H _]; discriminate.
+Qed.
+
+(* Wsh::new / Sh::new / Bare::new *)
+Theorem wrapper_new_ok c s : wrapper_new c s = EOk ->
+  s_base s = BB /\ ~ multipath_mismatch (all_keys (s_nodes s)).
+Proof.
+  unfold wrapper_new, top_level_checks. rewrite lift_t_ok.
+  destruct (top_level_type_check s) eqn:TT; [|discriminate]. intros _.
+  apply top_level_type_check_ok; exact TT.
+Qed.
+
+Lemma vkeys_checked n k : In k (vkeys n) -> key_checked_kind (n_kind n) = true /\ In k (n_keys n).
+Proof. unfold vkeys, key_checked_kind. destruct (n_kind n); simpl; tauto. Qed.
+
 Theorem accepted_ok_wrappers_partial c x : wrapper_from_tree c x = EOk ->
-  obeys_parse c x /\ ~ multipath_mismatch (all_keys (s_nodes (x_sum x))) /\
+  obeys_parse c x /\ s_base (x_sum x) = BB /\
+  (forall k, In k (all_keys (s_nodes (x_sum x))) -> key_legal c k) /\
+  ~ multipath_mismatch (all_keys (s_nodes (x_sum x))) /\
   (c = CBare -> bare_shape (x_sum x)).
 Proof.
-  unfold wrapper_from_tree, wrapper_new, top_level_checks. rewrite andthen_ok, lift_t_ok.
-  intros [T W]. split; [apply from_tree_ok; exact T|].
-  destruct (top_level_type_check (x_sum x)) eqn:TT; [|discriminate].
-  split; [apply top_level_type_check_ok; exact TT|].
-  intros ->. unfold other_top_level_checks in W. unfold bare_shape.
+  unfold wrapper_from_tree. rewrite andthen_ok. intros [T W].
+  pose proof (from_tree_ok _ _ T) as P. destruct (wrapper_new_ok _ _ W) as [B M].
+  split; [exact P|]. split; [exact B|]. split.
+  { intros k I. unfold all_keys in I. apply in_flat_map in I. destruct I as [n [In_n Ik]].
+    destruct (vkeys_checked _ _ Ik) as [Ck Ikk]. exact (op_keys _ _ P n In_n Ck k Ikk). }
+  split; [exact M|].
+  intros ->. unfold wrapper_new, top_level_checks in W. rewrite lift_t_ok in W.
+  destruct (top_level_type_check (x_sum x)); [|discriminate].
+  unfold other_top_level_checks in W. unfold bare_shape.
   destruct (s_nodes (x_sum x)) as [|n0 rest]; [discriminate|].
   destruct (n_kind n0); try discriminate.
   - destruct (N.leb_spec (N.of_nat (length (n_keys n0))) 3); [assumption|discriminate].
@@ -319,7 +352,7 @@ Proof.
 Qed.
 
 (* what the descriptor parser accepts is accepted by the miniscript parser with consensus
-   parameters EXACTLY when the context rules hold (which the wrapper never looked at) *)
+   parameters EXACTLY when the context rules hold ... *)
 Theorem desc_implies_ms_partial c x : c <> CTap -> figs_bounded (x_sum x) ->
   descriptor_from_str_inner c x = EOk ->
   (ms_from_str_with c (ctx_consensus c) x = EOk <-> obeys c (x_sum x)).
@@ -330,6 +363,27 @@ Proof.
   unfold ms_from_str_with. rewrite andthen_ok, lift_v_ok. split.
   - intros [_ V]. apply consensus_sound; exact V.
   - intros O. split; [exact T|]. apply consensus_complete; assumption.
+Qed.
+
+(* ... and of those rules the wrapper has already established base type, key kinds and depth:
+   what can still fail is a fragment the context forbids (or_i / d: before segwit), the script
+   size limit on script_size(), the op-count limit and the stack limit *)
+Record residual (c : ctx) (s : summary) : Prop := mkResidual {
+  rs_kinds : forall n, In n (s_nodes s) -> kind_legal c (n_kind n);
+  rs_size : opt_le (s_script_size s) (ctx_script_size_limit c);
+  rs_ops : opt_le (lim_fig LOps s) (ctx_op_limit c);
+  rs_stack : opt_le (lim_fig LStack s) (ctx_stack_limit c) }.
+
+Theorem desc_implies_ms_residual c x : c <> CTap -> figs_bounded (x_sum x) ->
+  descriptor_from_str_inner c x = EOk ->
+  (ms_from_str_with c (ctx_consensus c) x = EOk <-> residual c (x_sum x)).
+Proof.
+  intros Hc FB D. rewrite (desc_implies_ms_partial c x Hc FB D).
+  assert (W : wrapper_from_tree c x = EOk) by (destruct c; try congruence; exact D).
+  destruct (accepted_ok_wrappers_partial c x W) as [P [B [K _]]].
+  split.
+  - intros [_ O2 _ _ O5 O6 O7]. constructor; assumption.
+  - intros [R1 R2 R3 R4]. constructor; auto. exact (op_depth _ _ P).
 Qed.
 
 Theorem desc_implies_ms_tr x :
